@@ -1771,7 +1771,6 @@ func checkC27(r *mon.Run) {
 		return
 	}
 
-	defer devProfile()()
 	directedFullIDCollision(r)
 	nPath := devLimit(r.Pick(450, 12000))
 	nBeacon := devLimit(r.Pick(400, 10000))
